@@ -77,6 +77,13 @@ def desugar(loc, relfile, fn_paths, rules, _pass=0, optional=()):
                     rewrites.append((a, b, new))
                     records.append({"fn": fp, "rule": "D52 X.iter().copied().collect()  =>  pv_collect_copied(&X)   (stub: a collection with the elements of X in order; the target type is the declared one)",
                                     "original": src[a:b], "rewritten": new})
+            if "D55" in rules:
+                for m in re.finditer(r"\b([a-z_][a-z_0-9]*)\.into_iter\(\)\.collect\(\)", src[it["start"]:it["end"]]):
+                    a, b = it["start"] + m.start(), it["start"] + m.end()
+                    new = f"pv_into_vec({m.group(1)})"
+                    rewrites.append((a, b, new))
+                    records.append({"fn": fp, "rule": "D55 S.into_iter().collect()  =>  pv_into_vec(S)   (stub: a vector with exactly the elements of the set, in some order)",
+                                    "original": src[a:b], "rewritten": new})
             if "D42" in rules:
                 # in-place sort / dedup of a vector of integers: stubs with the documented effect (spec/std_sort_dedup.rs)
                 for m in re.finditer(r"\b([a-z_][a-z_0-9]*)\.(sort|dedup)\(\);", src[it["start"]:it["end"]]):
@@ -197,6 +204,26 @@ def desugar(loc, relfile, fn_paths, rules, _pass=0, optional=()):
                     new = (f"let pv_seq_{pat} = {ex}; let mut pv_n_{pat}: usize = 0; {lab}while pv_n_{pat} < pv_seq_{pat}.len() {{ let {pat} = pv_seq_{pat}[pv_n_{pat}]; pv_n_{pat} += 1;")
                     rewrites.append((a0, v["call"][1], new))
                     records.append({"fn": fp, "rule": "D30 for p in E { B }  =>  let s = E; let mut n = 0; while n < s.len() { let p = s[n]; n += 1; B }   (E is evaluated once to an indexable sequence of copyable items; Verus `for` has no `continue`)",
+                                    "original": src[v["call"][0]:v["call"][1]], "rewritten": new})
+                    continue
+                if v["rule"] == "D54":
+                    pat = src[v["pat"][0]:v["pat"][1]]
+                    ex = src[v["expr"][0]:v["expr"][1]]
+                    new = (f"let pv_seq_{pat} = {ex}; let mut pv_n_{pat}: usize = 0; while pv_n_{pat} < pv_seq_{pat}.len() {{ let {pat} = pv_seq_{pat}[pv_n_{pat}]; pv_n_{pat} += 1;")
+                    rewrites.append((v["call"][0], v["call"][1], new))
+                    records.append({"fn": fp, "rule": "D54 for p in E { B } (E a vector handed over by value, copyable items)  =>  let s = E; let mut n = 0; while n < s.len() { let p = s[n]; n += 1; B }",
+                                    "original": src[v["call"][0]:v["call"][1]], "rewritten": new})
+                    continue
+                if v["rule"] == "D53":
+                    recv = src[v["recv"][0]:v["recv"][1]]
+                    idx = src[v["idx"][0]:v["idx"][1]]
+                    pat = src[v["pat"][0]:v["pat"][1]]
+                    body = src[v["body"][0]:v["body"][1]]
+                    if not v.get("is_block"):
+                        body = "{ " + body + "; }"
+                    new = (f"{{ let mut pv_i: usize = 0; while pv_i < {recv}.len() {{ let {idx} = pv_i; let {pat} = &{recv}[pv_i]; pv_i += 1; {body} }} }}")
+                    rewrites.append((v["call"][0], v["call"][1], new))
+                    records.append({"fn": fp, "rule": "D53 X.iter().enumerate().for_each(|(i, p)| B)  =>  { index loop: let i = k; let p = &X[k]; B }",
                                     "original": src[v["call"][0]:v["call"][1]], "rewritten": new})
                     continue
                 if v["rule"] == "D49":
